@@ -268,7 +268,7 @@ def repeatGo {σ : Type} (f : σ → M σ) : Nat → σ → M σ
     let s' ← f s
     repeatGo f n s'
 
-def repeatM {σ : Type} (f : σ → M σ) (n : Nat) (s : σ) : M σ :=
+def repeatN {σ : Type} (f : σ → M σ) (n : Nat) (s : σ) : M σ :=
   if n ≤ hangLimit then repeatGo f n s
   else do
     let _ ← repeatGo f hangLimit s
@@ -454,12 +454,12 @@ def cub (e : Emu) (n : Int) : Emu :=
 def cnl (e : Emu) (n : Int) : M Emu :=
   let e := { e with lastCol := false }
   let n := dflt1 n
-  repeatM nel n.toNat e
+  repeatN nel n.toNat e
 
 def cpl (fx : Fixes) (e : Emu) (n : Int) : M Emu := do
   let e := { e with lastCol := false }
   let n := dflt1 n
-  let e ← repeatM (ri fx) n.toNat e
+  let e ← repeatN (ri fx) n.toNat e
   .ok { e with cur := { e.cur with col := e.left } }
 
 def cha (e : Emu) (n : Int) : Emu :=
@@ -842,6 +842,7 @@ def sgrOne (s : EStyle) (p : Param) (rest : List Param) : M (Option (EStyle × N
   else if n = 48 then sgrExt s .bg p rest
   else if n = 49 then .ok (some ({ s with bg := 0 }, 0))
   else if n = 58 then sgrExt s .ul p rest
+  else if n = 59 then .ok (some ({ s with ul := 0 }, 0))
   else if 90 ≤ n ∧ n ≤ 97 then .ok (some ({ s with fg := indexColor (n - 90 + 8) }, 0))
   else if 100 ≤ n ∧ n ≤ 107 then .ok (some ({ s with bg := indexColor (n - 100 + 8) }, 0))
   else .ok (some (s, 0))
